@@ -69,6 +69,13 @@ func VH_C01_trusted() {
 	covered, _ := l.vhCovered(cp, t)
 	isSpice := l.recs[t].v.Transaction.IsSpiceTransfer()
 	err := l.ab.validateLeaf(context.Background(), l.recs[t].v)
+	// trust is withdrawn again: from then on the sealer's vertices are accounted like anybody's
+	if e := l.ab.RemoveTrustedNode(trusted); e != nil {
+		panic(e)
+	}
+	if l.ab.validateLeaf(context.Background(), l.recs[t].v) == nil {
+		verifrt.Assert(verifrt.Or(covered, !isSpice), "C01/trusted/no-bypass-after-trust-is-withdrawn")
+	}
 	if err == nil {
 		verifrt.Assert(verifrt.Or(verifrt.Or(covered, !isSpice), sealer == trusted), "C01/trusted/bypass-only-for-listed-sealer")
 		verifrt.Reach("C01/trusted/ok")
